@@ -99,7 +99,7 @@ def build_cases(ctx):
     return cases, hist
 
 
-EXTRA_PROPS = {"C02": ["C02Strings"], "C01": ["C01Values", "C01Doc", "C01Sound"]}
+EXTRA_PROPS = {"C02": ["C02Strings"], "C01": ["C01Values", "C01Doc", "C01Sound", "C01DocSound"]}
 
 # toml-test files whose validity the specification leaves undecided (DESIGN.md section 3.5, class U1): none in the 1.0.0 list
 U1_CORPUS = set()
